@@ -44,6 +44,7 @@ type Contract struct {
 	Decreases []*Clause
 	RuleName  string
 	File      string
+	Reveal    []string
 }
 
 type Lemma struct {
@@ -322,6 +323,8 @@ func (e *Engine) parseContractFile(file, pkg string) error {
 			addClause(&cur.Ensures, "ensures")
 		case "inline":
 			cur.Inline = true
+		case "reveal":
+			cur.Reveal = append(cur.Reveal, strings.Fields(rest)...)
 		case "trusted":
 			cur.Trusted = true
 		case "rule":
@@ -394,8 +397,9 @@ type SpecSig struct {
 }
 
 type SpecTable struct {
-	sigs map[string]*SpecSig
-	text string
+	sigs   map[string]*SpecSig
+	text   string
+	opaque []string
 }
 
 func normSort(s string) Sort {
@@ -432,6 +436,9 @@ func (st *SpecTable) scan(text string) {
 	// heap directives
 	for _, line := range strings.Split(text, "\n") {
 		line = strings.TrimSpace(line)
+		if strings.HasPrefix(line, ";@opaque ") {
+			st.opaque = append(st.opaque, strings.Fields(line)[1:]...)
+		}
 		if strings.HasPrefix(line, ";@heap ") {
 			fs := strings.Fields(line)[1:]
 			if len(fs) >= 1 {
@@ -639,13 +646,17 @@ func (c *specCtx) ident(name string) TV {
 		return TV{tBool(false), types.Typ[types.Bool]}
 	case "nil":
 		return TV{Term{"NIL", "NIL"}, nil}
+	case "VNil":
+		return TV{Term{"VNil", SVal}, nil}
 	case "result", "result0":
-		if len(c.results) < 1 {
+		if len(c.results) >= 1 {
+			return TV{c.results[0], c.resultType(0)}
+		}
+		if name == "result0" {
 			engErr("result used outside ensures")
 		}
-		return TV{c.results[0], c.resultType(0)}
 	}
-	if strings.HasPrefix(name, "result") {
+	if strings.HasPrefix(name, "result") && len(name) > 6 {
 		if i, err := strconv.Atoi(name[6:]); err == nil {
 			if i >= len(c.results) {
 				engErr("%s out of range", name)
@@ -655,6 +666,27 @@ func (c *specCtx) ident(name string) TV {
 	}
 	if tv, ok := c.lookupName(name); ok {
 		return tv
+	}
+	// address-taken locals by their source name
+	if c.f != nil && c.f.fn != nil && c.f.vals != nil {
+		var found *ssa.Alloc
+		n := 0
+		for _, b := range c.f.fn.Blocks {
+			for _, in := range b.Instrs {
+				if al, ok := in.(*ssa.Alloc); ok && al.Comment == name {
+					if _, has := c.f.vals[al]; has {
+						found = al
+						n++
+					}
+				}
+			}
+		}
+		if n == 1 {
+			return TV{c.f.vals[found], found.Type()}
+		}
+	}
+	if comp, ok := ioAlias[name]; ok {
+		return TV{c.fe.comp(c.cur, comp, ioComps[comp]), nil}
 	}
 	// package-level constant / variable of the function's own package
 	if c.f != nil && c.f.fn != nil && c.f.fn.Pkg != nil {
@@ -1047,6 +1079,16 @@ func (c *specCtx) call(x *ast.CallExpr) TV {
 		}
 		return v
 	}
+	if ctor, ok := valCtors[name]; ok {
+		var args []Term
+		for i := range x.Args {
+			args = append(args, c.coerce(arg(i), ctor.params[i]))
+		}
+		if len(args) == 0 {
+			return TV{Term{name, ctor.result}, nil}
+		}
+		return TV{Term{app(name, args...), ctor.result}, nil}
+	}
 	// spec function from the prelude
 	sig, ok := fe.eng.specs.sigs[name]
 	if !ok || sig.Result == "" {
@@ -1084,3 +1126,20 @@ func (e *Engine) exprText(x ast.Expr) string {
 }
 
 var _ = ssa.Function{}
+
+var ioAlias = map[string]string{"stdoutN": "G_io_OutN", "stdout": "G_io_Out", "stderrN": "G_io_ErrN", "stderr": "G_io_Err",
+	"exited": "G_io_Exited", "exitCode": "G_io_ExitCode", "stdinPos": "G_io_InPos"}
+
+type ctorSig struct {
+	params []Sort
+	result Sort
+}
+
+var valCtors = map[string]ctorSig{
+	"VNil": {nil, SVal}, "VBool": {[]Sort{SBool}, SVal}, "VF64": {[]Sort{SF64}, SVal}, "VI64": {[]Sort{SBV64}, SVal}, "VInt": {[]Sort{SInt}, SVal},
+	"VStr": {[]Sort{SStr}, SVal}, "VRunes": {[]Sort{SSlice}, SVal}, "VArr": {[]Sort{SSlice}, SVal}, "VObj": {[]Sort{SInt}, SVal},
+	"VPtr": {[]Sort{SInt, SInt}, SVal}, "VStruct": {[]Sort{SInt}, SVal}, "VOther": {[]Sort{SInt, SInt}, SVal},
+	"vbool": {[]Sort{SVal}, SBool}, "vf64": {[]Sort{SVal}, SF64}, "vi64": {[]Sort{SVal}, SBV64}, "vint": {[]Sort{SVal}, SInt}, "vstr": {[]Sort{SVal}, SStr},
+	"vrunes": {[]Sort{SVal}, SSlice}, "varr": {[]Sort{SVal}, SSlice}, "vobj": {[]Sort{SVal}, SInt}, "vpref": {[]Sort{SVal}, SInt}, "vptag": {[]Sort{SVal}, SInt},
+	"mkSlice": {[]Sort{SInt, SInt, SInt, SInt}, SSlice},
+}
